@@ -8,6 +8,8 @@ ASSIGN_OPS = ('=', '+=', '-=', '*=', '/=', '%=', '<<=', '>>=', '&=', '|=', '^=')
 
 
 def is_assign(n):
+    if n.k == 'CXXOperatorCallExpr':
+        return n.op in ('=', '+=', '-=', '*=', '/=') and len(n.args) == 2
     return n.k in ('BinaryOperator', 'CompoundAssignOperator') and n.op in ASSIGN_OPS
 
 
@@ -377,7 +379,8 @@ def writes_of(n, summaries):
         out.add('v%d:%s' % (n.d, n.n))
     elif n.k in ('CallExpr', 'CXXMemberCallExpr'):
         for a in n.args:
-            if a.k == 'UnaryOperator' and a.op == '&':
+            a = _strip_casts(a)
+            if a is not None and a.k == 'UnaryOperator' and a.op == '&':
                 k = lvalue_key(a.child('sub'))
                 if k:
                     out.add(k)
@@ -435,10 +438,6 @@ def check_loops(ctx, fn, summaries, rule='R-LOOP'):
             continue
         # must-analysis over the loop region of the CFG
         region_ids = {n.id for n in L.walk()}
-        cw = g.where_node(cond)
-        if cw is None:
-            ctx.violation(rule, ikey, L.loc(), 'loop condition not found in CFG (unrecognised)')
-            continue
         # head block = block whose terminator is this loop statement
         heads = [b for b in g.blocks.values() if b.t == L.id and b.tk in ('ForStmt', 'WhileStmt', 'DoStmt')]
         if not heads:
@@ -600,29 +599,86 @@ def deref_uses(n):
     return [o for o in out if o is not None]
 
 
+def believed_nullable(fn):
+    """Access paths that the function itself compares with NULL somewhere (its own belief that they
+    can be null — Engler-style)."""
+    out = set()
+    for n in fn.walk():
+        nt = None
+        if n.k == 'ImplicitCastExpr' and n.cast == 'PointerToBoolean':
+            nt = null_test(n)
+        elif n.k == 'BinaryOperator' and n.op in ('==', '!='):
+            nt = null_test(n)
+        if nt:
+            out.add(nt[0])
+    return out
+
+
 def check_nullable_uses(ctx, fn, nullable, rule='R-NULL', seeds_next=False):
-    """Forward may-null analysis. Seeds: results of nullable callees (and `p = p->next`-style loads
-    when seeds_next). A dereference / nonnull-argument use while the key may be null is a violation."""
+    """Forward nullness analysis. State = (maybe-null {(key, strength)}, proven-non-null keys);
+    join = (union, intersection). Strong seeds: results of nullable callees. Weak seeds: NULL
+    constants and (when seeds_next) `->next` loads whose access path is not proven non-null.
+    A dereference / nonnull-argument use of a maybe-null key is a violation when the taint is
+    strong, or weak and the function itself null-tests that key somewhere (check-then-use
+    contradiction). Surviving a dereference proves non-null."""
     g = fn.cfg
-    n_sites = [0]
+    believed = believed_nullable(fn)
+
+    def kill(keys, key):
+        return {k for k in keys if not (k == key or k.startswith(key + '->') or k.startswith(key + '.'))}
+
+    def strength(rhs, st):
+        """None = not maybe-null; 'S' / 'W' otherwise."""
+        if rhs is None:
+            return None
+        x = rhs
+        while x.k in ('CStyleCastExpr', 'ImplicitCastExpr', 'CXXStaticCastExpr', 'CXXReinterpretCastExpr') and x.child('sub') is not None:
+            if x.is_null_const():
+                return 'W'
+            x = x.child('sub')
+        if x.is_null_const():
+            return 'W'
+        if x.k in ('CallExpr', 'CXXMemberCallExpr') and x.callee in nullable:
+            return 'S'
+        k = lvalue_key(x)
+        if k:
+            for (kk, stg) in st[0]:
+                if kk == k:
+                    return 'B' if (stg == 'W' and k in believed) else stg
+        if seeds_next and x.k == 'MemberExpr' and x.n == 'next' and not (k and k in st[1]):
+            # a list tail; 'B' when this function itself null-tests that very access path
+            return 'B' if (k and k in believed) else 'W'
+        return None
+
+    def assign(st, key, rhs):
+        mn, nn = st
+        mn2 = {(k, s_) for (k, s_) in mn if not (k == key or k.startswith(key + '->') or k.startswith(key + '.'))}
+        nn2 = kill(nn, key)
+        sg = strength(rhs, st)
+        if sg:
+            mn2.add((key, sg))
+        elif rhs is not None:
+            rk = lvalue_key(_strip_casts(rhs))
+            if rk and rk in nn:
+                nn2.add(key)
+        return (frozenset(mn2), frozenset(nn2))
 
     def transfer(n, st):
-        # uses first (operands are evaluated before the node itself)
         if n.k == 'VarDecl':
-            i = n.child('init')
-            key = 'v%d:%s' % (n.d, n.n)
-            new = set(st)
-            new.discard(key)
-            if i is not None and _maybe_null_expr(i, nullable, st, seeds_next):
-                new.add(key)
-            return frozenset(new)
+            return assign(st, 'v%d:%s' % (n.d, n.n), n.child('init'))
         if is_assign(n) and n.op == '=':
             key = lvalue_key(n.child('lhs'))
             if key:
-                new = {k for k in st if not (k == key or k.startswith(key + '->') or k.startswith(key + '.'))}
-                if _maybe_null_expr(n.child('rhs'), nullable, st, seeds_next):
-                    new.add(key)
-                return frozenset(new)
+                return assign(st, key, n.child('rhs'))
+        us = deref_uses(n)
+        if us:
+            mn, nn = st
+            for p in us:
+                key = lvalue_key(p)
+                if key:
+                    mn = frozenset((k, s_) for (k, s_) in mn if k != key)
+                    nn = nn | {key}
+            return (frozenset(mn), frozenset(nn))
         return st
 
     def refine(blk, k, succ, st):
@@ -633,13 +689,18 @@ def check_nullable_uses(ctx, fn, nullable, rule='R-NULL', seeds_next=False):
         if nt:
             key, true_null = nt
             nonnull_edge = (true_null and k == 1) or ((not true_null) and k == 0)
-            if nonnull_edge and key in st:
-                return frozenset(x for x in st if x != key)
+            mn, nn = st
+            if nonnull_edge:
+                return (frozenset((kk, s_) for (kk, s_) in mn if kk != key), frozenset(nn | {key}))
+            else:
+                return (mn, frozenset(nn - {key}))
         return st
 
-    ins, edges = g.forward(frozenset(), transfer, refine)
+    def join(a, b):
+        return (a[0] | b[0], a[1] & b[1])
+
+    ins, edges = g.forward((frozenset(), frozenset()), transfer, refine, join)
     ctx.explored['cfg_edges'] += len(edges)
-    # second pass: evaluate uses with the in-state replayed per block
     reported = set()
     for b, st in ins.items():
         blk = g.blocks[b]
@@ -648,17 +709,28 @@ def check_nullable_uses(ctx, fn, nullable, rule='R-NULL', seeds_next=False):
                 key = lvalue_key(p)
                 if key is None:
                     continue
-                if key in st and (n.id, key) not in reported:
+                sg = None
+                for (kk, s_) in st[0]:
+                    if kk == key and (sg is None or s_ in ('S', 'B')):
+                        sg = s_
+                bad = sg in ('S', 'B') or (sg == 'W' and key in believed)
+                if bad and (n.id, key) not in reported:
                     reported.add((n.id, key))
+                    why = 'result of a callee that can return NULL' if sg == 'S' else 'can hold NULL / a list tail here, and this function itself null-tests it elsewhere'
                     ctx.violation(rule, '%s/use:%s@%s' % (fn.qn, pretty_key(key), _use_desc(n)), n.loc(),
-                                  '`%s` may be NULL here (assigned from a nullable source) and is dereferenced / passed to a nonnull parameter by `%s`' % (pretty_key(key), n.text()[:80]))
-                elif key not in st and _was_seeded(fn, key, nullable, seeds_next):
-                    n_sites[0] += 1
+                                  '`%s` may be NULL here (%s) and is dereferenced / passed to a nonnull parameter by `%s`' % (pretty_key(key), why, n.text()[:80]))
+                elif not bad and (key in believed or sg is None) and _was_seeded(fn, key, nullable, seeds_next) and key in believed:
                     if (n.id, key) not in reported:
                         reported.add((n.id, key))
-                        ctx.ok(rule, '%s/use:%s@%s#%d' % (fn.qn, pretty_key(key), _use_desc(n), n.id), n.loc(), 'use of nullable-sourced `%s` is guarded' % pretty_key(key))
+                        ctx.ok(rule, '%s/use:%s@%s#%d' % (fn.qn, pretty_key(key), _use_desc(n), n.id), n.loc(), 'use of possibly-null `%s` is guarded on every path' % pretty_key(key))
             st = transfer(n, st)
     return len(reported)
+
+
+def _strip_casts(x):
+    while x is not None and x.k in ('CStyleCastExpr', 'ImplicitCastExpr', 'CXXStaticCastExpr', 'CXXReinterpretCastExpr') and x.child('sub') is not None:
+        x = x.child('sub')
+    return x
 
 
 _seed_cache = {}
@@ -669,12 +741,18 @@ def _was_seeded(fn, key, nullable, seeds_next):
     if ck not in _seed_cache:
         s = set()
         for n in fn.walk():
-            if n.k == 'VarDecl' and n.child('init') is not None and _maybe_null_expr(n.child('init'), nullable, frozenset(), seeds_next):
-                s.add('v%d:%s' % (n.d, n.n))
-            if is_assign(n) and n.op == '=' and _maybe_null_expr(n.child('rhs'), nullable, frozenset(), seeds_next):
-                k = lvalue_key(n.child('lhs'))
-                if k:
-                    s.add(k)
+            rhs = None
+            k = None
+            if n.k == 'VarDecl' and n.child('init') is not None:
+                rhs, k = n.child('init'), 'v%d:%s' % (n.d, n.n)
+            elif is_assign(n) and n.op == '=':
+                rhs, k = n.child('rhs'), lvalue_key(n.child('lhs'))
+            if rhs is None or k is None:
+                continue
+            x = _strip_casts(rhs)
+            if rhs.is_null_const() or (x is not None and (x.is_null_const() or (x.k in ('CallExpr', 'CXXMemberCallExpr') and x.callee in nullable)
+                                                          or (seeds_next and x.k == 'MemberExpr' and x.n == 'next') or x.k == 'DeclRefExpr')):
+                s.add(k)
         _seed_cache[ck] = s
     return key in _seed_cache[ck]
 
@@ -685,26 +763,6 @@ def _use_desc(n):
     if n.k == 'MemberExpr':
         return '->' + (n.n or '')
     return n.k
-
-
-def _maybe_null_expr(e, nullable, st, seeds_next):
-    if e is None:
-        return False
-    x = e
-    while x.k in ('CStyleCastExpr', 'ImplicitCastExpr', 'CXXStaticCastExpr', 'CXXReinterpretCastExpr') and x.child('sub') is not None:
-        if x.is_null_const():
-            return True
-        x = x.child('sub')
-    if x.is_null_const():
-        return True
-    if x.k in ('CallExpr', 'CXXMemberCallExpr') and x.callee in nullable:
-        return True
-    k = lvalue_key(x)
-    if k and k in st:
-        return True
-    if seeds_next and x.k == 'MemberExpr' and x.n == 'next':
-        return True
-    return False
 
 
 # ------------------------------------------------------------------------------------------------
